@@ -44,6 +44,12 @@ PROP = {'rule': 'rapid-generated cases, one unit per package. '
          'naming served and unserved scheduler names are created, bound, ended, deleted, touched; the restarted scheduler gets the '
          'persisted objects as adds (duplicates, unscheduled-then-bind); the reserve pods it holds (node, requests) must equal the '
          'live ones and the model (exactly the Available reservations hold their allocatable on their node). '
+         'both quota units let bound pods be deleted gracefully (deletionTimestamp, still running, still listed). numa and device '
+         "give a third of the Reservations a pod template that carries the allocation result of the pod it was copied from "
+         '(resource-status / device-allocated, empty or not); a cycle that allocates nothing of its own for such a Reservation is '
+         'not continued (whether the inherited result may be adopted is not stated by C19). deviceConcurrentFirstEvents replays the '
+         'Device, a bound pod and an Available Reservation of 48 nodes from three goroutines per node released together and joined, '
+         'and compares every node with a sequential replay at quiescence. '
          'numaPersistDecode: arbitrary PodAllocation values through preBindObject and the event handler. '
          'distinct = FNV-64 fingerprint of the full case.',
  'assumptions': ['strings carried in annotations (device ids, bus ids, reservation names/uids) are valid UTF-8, as everything that '
@@ -84,7 +90,8 @@ PROP = {'rule': 'rapid-generated cases, one unit per package. '
            {'name': 'device',
             'pkg': 'pkg/scheduler/plugins/deviceshare',
             'files': ['C19/c19_device_test.go'],
-            'tests': [{'run': 'TestVerifC19DeviceReplay', 'quick': 800, 'thorough': 2000, 'steps': 20}]},
+            'tests': [{'run': 'TestVerifC19DeviceReplay', 'quick': 800, 'thorough': 2000, 'steps': 20, 'shrinktime': '20s'},
+                      {'run': 'TestVerifC19DeviceConcurrentFirstEvents', 'quick': 150, 'thorough': 600, 'shrinktime': '5s'}]},
            {'name': 'reservation',
             'pkg': 'pkg/scheduler/plugins/reservation',
             'files': ['C19/c19_reservation_test.go'],
@@ -92,11 +99,11 @@ PROP = {'rule': 'rapid-generated cases, one unit per package. '
            {'name': 'quota',
             'pkg': 'pkg/scheduler/plugins/elasticquota/core',
             'files': ['C19/c19_quota_test.go'],
-            'tests': [{'run': 'TestVerifC19QuotaReplay', 'quick': 800, 'thorough': 2000, 'steps': 25}]},
+            'tests': [{'run': 'TestVerifC19QuotaReplay', 'quick': 800, 'thorough': 2000, 'steps': 25, 'shrinktime': '20s'}]},
            {'name': 'quotaplugin',
             'pkg': 'pkg/scheduler/plugins/elasticquota',
             'files': ['C19/c19_quotaplugin_test.go'],
-            'tests': [{'run': 'TestVerifC19QuotaPluginReplay', 'quick': 600, 'thorough': 2000, 'steps': 25}]},
+            'tests': [{'run': 'TestVerifC19QuotaPluginReplay', 'quick': 600, 'thorough': 2000, 'steps': 25, 'shrinktime': '20s'}]},
            {'name': 'schedcache',
             'pkg': 'pkg/scheduler/frameworkext/eventhandlers',
             'files': ['C19/c19_schedcache_test.go'],
